@@ -1,6 +1,7 @@
 """Spec -> code: TLC emits one JSON line per generated transition (ACTION_CONSTRAINT Emit);
 lines are executed against the real classes by a pool of worker processes."""
 import importlib
+import multiprocessing
 import json
 import os
 import threading
@@ -31,7 +32,8 @@ def run_s2c(modname, focus, jobs, params=None, nproc=None, batch=1500, tlc_paral
     pending = set()
     lock = threading.Lock()
     sem = threading.Semaphore(nproc * 3)
-    pool = ProcessPoolExecutor(max_workers=nproc)
+    # forkserver: never fork the (multi-threaded) parent itself
+    pool = ProcessPoolExecutor(max_workers=nproc, mp_context=multiprocessing.get_context("forkserver"))
 
     def submit(lines, jparams):
         sem.acquire()
